@@ -32,14 +32,15 @@ var ScopePkgs = map[string]string{
 
 // Prog is the loaded, type-checked program in SSA form.
 type Prog struct {
-	Repo     string
-	Fset     *token.FileSet
-	Pkgs     []*packages.Package
-	SSA      *ssa.Program
-	Scope    map[string]*ssa.Package // short name -> package of S
-	AllFuncs map[*ssa.Function]bool
-	Sizes    types.Sizes
-	WordBits int
+	writeOnce map[*ssa.Global]bool
+	Repo      string
+	Fset      *token.FileSet
+	Pkgs      []*packages.Package
+	SSA       *ssa.Program
+	Scope     map[string]*ssa.Package // short name -> package of S
+	AllFuncs  map[*ssa.Function]bool
+	Sizes     types.Sizes
+	WordBits  int
 
 	scopeFuncs []*ssa.Function
 	cg         *callgraph.Graph
@@ -330,4 +331,36 @@ func (p *Prog) CallSitesOf(target *ssa.Function) []ssa.CallInstruction {
 		}
 	}
 	return out
+}
+
+// WriteOnceGlobal reports whether package-level variable g is assigned only by its package initialiser (no store
+// to it, and no address of it taken for anything but loads, in any other function of the loaded scope).
+func (p *Prog) WriteOnceGlobal(g *ssa.Global) bool {
+	if p.writeOnce == nil {
+		p.writeOnce = map[*ssa.Global]bool{}
+	}
+	if v, ok := p.writeOnce[g]; ok {
+		return v
+	}
+	ok := true
+	for _, fn := range p.scopeFuncs {
+		if fn.Name() == "init" && fn.Pkg == g.Pkg {
+			continue
+		}
+		for _, b := range fn.Blocks {
+			for _, in := range b.Instrs {
+				for _, op := range in.Operands(nil) {
+					if *op != ssa.Value(g) {
+						continue
+					}
+					if u, isLoad := in.(*ssa.UnOp); isLoad && u.Op == token.MUL {
+						continue
+					}
+					ok = false
+				}
+			}
+		}
+	}
+	p.writeOnce[g] = ok
+	return ok
 }
